@@ -237,6 +237,10 @@ func RunNodeHistory(h NodeHistory, o Oracle, binary string) (*Stats, *refmodel.L
 					}
 					continue
 				}
+				if (o.CleanExit || o.Recovery) && (st.Restarts > 0 || st.Crashes > 0) {
+					// a node that was stopped (or crashed) and restarted must behave like one that never was
+					return st, m, fmt.Errorf("step %d (%s): the restarted node died: %v", si, s.Op, err)
+				}
 				return st, m, unsettled("node died during step %d (%s): %v", si, s.Op, err)
 			}
 			if s.Op == "crash" {
